@@ -207,6 +207,19 @@ def run_case(case):
                 if metas[n]["final_step"] != metas[1]["final_step"]:
                     r.violate(f"{n} devices: final step {metas[n]['final_step']} != {metas[1]['final_step']}", w, mechanism="device-count-step-count")
                 identical = True
+                # deterministic classifier for the one mechanism seen on the unchanged tree: a TFSF box source adds
+                # overlapping slices (an x-range plane, then a single-x face) to the same component of the x-sharded
+                # field inside one jitted step; the SPMD-partitioned program then differs from the single-device one.
+                # Everything downstream of the fields in such a run carries the same key.
+                has_tfsf = any(sv["kind"] == "tfsf" for sv in scene["sources"])
+                fields_differ = any(
+                    got.get(k) is not None and got[k].shape == ref[k].shape
+                    and float(np.abs(got[k] - ref[k]).max()) > 1e-12 * max(fmax, 1e-300)
+                    for k in ("E", "H")
+                )
+                override = "tfsf-box-source-multi-device" if (has_tfsf and fields_differ) else None
+                if metas[n].get("xla_probe") is not None:
+                    r.branch(f"xla-overlapping-slice-add-probe:n={n}:" + ("miscompiles" if metas[n]["xla_probe"] else "ok"))
                 for name, want in ref.items():
                     cls = diffrun.detector_tag(name, tags["det_by_name"])
                     sig = f"n{n}|{cls}|{ssig}"
@@ -230,7 +243,7 @@ def run_case(case):
                         label = name.split("/")[0]
                         mech = "device-count-field:" + label
                         atol = 1e-12 * fmax if name.startswith("psi") else 0.0
-                    ok = r.check_close(label, g, want, tol, witness=ww, sig=sig, mechanism=mech, atol=atol)
+                    ok = r.check_close(label, g, want, tol, witness=ww, sig=sig, mechanism=override or mech, atol=atol)
                     if ok and not reduced and g.shape == want.shape and not np.array_equal(g, want):
                         identical = False
                 for name in got:
@@ -271,6 +284,32 @@ def _sharding_info(a):
         return {"error": repr(e), "n_devices": 0, "n_shards": 0, "shard_shapes": [], "shard_x_ranges": []}
 
 
+def _xla_probe(fdtdx):
+    """Evidence only (never a verdict): does this JAX/XLA build give a wrong answer for two overlapping slice-adds
+    on one component of an x-sharded array inside one jit?  No fdtdx code beyond the array constructor is involved."""
+    try:
+        import jax
+        import jax.numpy as jnp
+        import numpy as np
+
+        from fdtdx.core.jax.sharding import create_named_sharded_matrix
+
+        rng = np.random.default_rng(0)
+        v1, v2 = rng.normal(size=(6, 4, 1)), rng.normal(size=(1, 4, 4))
+
+        def f(E, a, b):
+            return E.at[1, 1:7, 3:7, 3:4].add(a).at[1, 1:2, 3:7, 3:7].add(b)
+
+        E0 = create_named_sharded_matrix((3, 8, 10, 8), value=0.0, sharding_axis=1, dtype=jnp.float64, backend="cpu")
+        got = np.asarray(jax.jit(f)(E0, jnp.asarray(v1), jnp.asarray(v2)))
+        want = np.zeros((3, 8, 10, 8))
+        want[1, 1:7, 3:7, 3:4] += v1
+        want[1, 1:2, 3:7, 3:7] += v2
+        return bool(np.abs(got - want).max() > 1e-12)
+    except Exception:  # noqa: BLE001
+        return None
+
+
 def _child(tmp, n):
     import json
     import os
@@ -289,8 +328,9 @@ def _child(tmp, n):
         job = json.load(f)
     out = {"device_count_requested": n, "scenes": []}
     src = os.path.realpath(bootstrap.REPO_SRC) + os.sep
+    probe = _xla_probe(bootstrap.ensure()) if n > 1 else None
     for j, scene in enumerate(job["scenes"]):
-        m = {"device_count": jax.device_count(), "devices": [str(d) for d in jax.devices()]}
+        m = {"device_count": jax.device_count(), "devices": [str(d) for d in jax.devices()], "xla_probe": probe}
         try:
             built = scenes.build(scene)
             arr = built["arrays"]
